@@ -592,8 +592,10 @@ impl DcpsDomainParticipant {
                 gap_submessage.writer_id(),
             );
             if let Some(writer_proxy) = dr.transport_reader.matched_writer_lookup(writer_guid) {
-                for seq_num in gap_submessage.gap_start()..gap_submessage.gap_list().base() {
-                    writer_proxy.irrelevant_change_set(seq_num)
+                // All the sequence numbers in gap_start..base are irrelevant. Marking the last one marks
+                // the whole range, without iterating over a range whose bounds come from the wire
+                if gap_submessage.gap_start() < gap_submessage.gap_list().base() {
+                    writer_proxy.irrelevant_change_set(gap_submessage.gap_list().base() - 1)
                 }
 
                 for seq_num in gap_submessage.gap_list().set() {
